@@ -184,7 +184,9 @@ def finish(pid, ev, refuted, unknown, undecided, errors, replay_fn=None, known=N
         nviol += 1
         extra = None
         tail = ""
-        if replay_fn is not None:
+        if o.get("replay_inline"):
+            extra = o["replay_inline"]      # a bounded stand-in's failing input: a real execution, reproduced when the script ran
+        elif replay_fn is not None:
             try:
                 extra = replay_fn(o)
             except Exception as e:  # replay machinery must never mask the verdict
